@@ -103,7 +103,7 @@ Section Equations.
     end.
 
   Lemma dec_bool_eq p : dec TBool p = dec_bool decode_bool_str p. Proof. reflexivity. Qed.
-  Lemma dec_int_eq p : dec TInt p = dec_int p. Proof. reflexivity. Qed.
+  Lemma dec_int_eq p : dec TInt p = dec_int DECODE_INT_FLOAT_CMP p. Proof. reflexivity. Qed.
   Lemma dec_float_eq p : dec TFloat p = dec_float p. Proof. reflexivity. Qed.
   Lemma dec_str_eq p : dec TStr p = dec_str p. Proof. reflexivity. Qed.
   Lemma dec_path_eq p : dec TPath p = dec_path p. Proof. reflexivity. Qed.
@@ -214,8 +214,8 @@ Section LenientDecodes.
     unfold len, dec. induction t as [ | | | | | c ms | cs | t1 IH | ts IH | t1 IH | ts IH | t1 IH | t1 IH | tk tv IHk IHv | k c fs IH ]
       using ty_ind'; intros v p H; simpl in H.
     - destruct H as (b & -> & [-> | (s & -> & Hs)]); rewrite dec_bool_eq; simpl; [reflexivity | rewrite Hs; reflexivity].
-    - destruct H as (z & -> & Hz & [-> | (s & -> & Hs)]); rewrite dec_int_eq; simpl.
-      + apply Z.ltb_lt in Hz. rewrite Hz. reflexivity.
+    - destruct H as (z & -> & [-> | (s & -> & Hs)]); rewrite dec_int_eq; simpl.
+      + reflexivity.
       + rewrite Hs. reflexivity.
     - destruct H as (r & -> & [-> | [(s & -> & Hs) | (z & -> & Hz & ->)]]); rewrite dec_float_eq; simpl.
       + reflexivity.
@@ -815,17 +815,17 @@ Section Roundtrip.
     len t v p /\ len t v (json_rt p) /\ json_ok p = true /\ yaml_ok p = true.
 
   Lemma key_enc tk k pos :
-    key_type tk = true -> has_type k tk = true -> ints_small k = true ->
+    key_type tk = true -> has_type k tk = true ->
     json_scalar (e pos k) = true /\ json_key (e pos k) = Some (jkey (e pos k)) /\
     len tk k (e pos k) /\ len tk k (jkey (e pos k)) /\ json_rt (e pos k) = e pos k /\ v_hashable k = true
     /\ e pos k = e false k.
   Proof.
-    unfold e, len. intros Hk Ht Hs.
-    destruct tk; simpl in Hk; try discriminate; simpl in Ht; destruct k; try discriminate; enc_scalar; simpl in Hs.
+    unfold e, len. intros Hk Ht.
+    destruct tk; simpl in Hk; try discriminate; simpl in Ht; destruct k; try discriminate; enc_scalar.
     - repeat split; try reflexivity; simpl.
       + exists b. split; [reflexivity | left; reflexivity].
       + exists b. split; [reflexivity|]. right. destruct b; eexists; (split; [reflexivity|]); [apply s2b_true | apply s2b_false].
-    - apply Z.ltb_lt in Hs. repeat split; try reflexivity; simpl.
+    - repeat split; try reflexivity; simpl.
       + exists z. repeat split; auto.
       + exists z. repeat split; auto. right. eexists. split; [reflexivity | apply parse_int_Z_to_dec].
     - repeat split; try reflexivity; simpl.
@@ -859,9 +859,9 @@ Section Roundtrip.
   Proof. destruct p; simpl; congruence. Qed.
 
   Lemma good_of_key t v pos :
-    key_type t = true -> has_type v t = true -> ints_small v = true -> good t v (e pos v).
+    key_type t = true -> has_type v t = true -> good t v (e pos v).
   Proof.
-    intros Hk Ht Hs. destruct (key_enc t v pos Hk Ht Hs) as (H1 & H2 & H3 & H4 & H5 & H6 & H7).
+    intros Hk Ht. destruct (key_enc t v pos Hk Ht) as (H1 & H2 & H3 & H4 & H5 & H6 & H7).
     unfold good. rewrite H5. repeat split; try assumption; [apply json_scalar_ok | apply json_scalar_yaml]; exact H1.
   Qed.
 
@@ -886,7 +886,7 @@ Section Roundtrip.
     unfold len. induction t as [ | | | | | c ms | cs | t1 IH | ts IH | t1 IH | ts IH | t1 IH | t1 IH | tk tv IHk IHv | k c fs IH ]
       using ty_ind'; intros v H; simpl in H.
     - destruct H as (b & _ & [H | (s & H & _)]); discriminate.
-    - destruct H as (z & _ & _ & [H | (s & H & _)]); discriminate.
+    - destruct H as (z & _ & [H | (s & H & _)]); discriminate.
     - destruct H as (r & _ & [H | [(s & H & _) | (z & H & _)]]); discriminate.
     - destruct H as (s & _ & H); discriminate.
     - destruct H as (s & _ & H & _); discriminate.
@@ -908,7 +908,7 @@ Section Roundtrip.
     unfold len. induction t as [ | | | | | c ms | cs | t1 IH | ts IH | t1 IH | ts IH | t1 IH | t1 IH | tk tv IHk IHv | k c fs IH ]
       using ty_ind'; intros v H; simpl in H.
     - destruct H as (b & _ & [H | (s & H & _)]); discriminate.
-    - destruct H as (z & _ & _ & [H | (s & H & _)]); discriminate.
+    - destruct H as (z & _ & [H | (s & H & _)]); discriminate.
     - destruct H as (r & _ & [H | [(s & H & _) | (z & H & _)]]); discriminate.
     - destruct H as (s & _ & H); discriminate.
     - destruct H as (s & _ & H & _); discriminate.
@@ -1059,11 +1059,11 @@ Section Roundtrip.
   Qed.
 
   Theorem enc_good : forall t v pos,
-    ser_type DC_TYPE_KEY t = true -> has_type v t = true -> plain_value v = true -> ints_small v = true ->
+    ser_type DC_TYPE_KEY t = true -> has_type v t = true -> plain_value v = true ->
     union_safe (decode_gen decf) (e false) t v = true -> good t v (e pos v).
   Proof.
     unfold e. induction t as [ | | | | | c ms | cs | t1 IH | ts IH | t1 IH | ts IH | t1 IH | t1 IH | tk tv IHk IHv | k c fs IH ]
-      using ty_ind'; intros v pos Hser Ht Hpv Hsm Hus.
+      using ty_ind'; intros v pos Hser Ht Hpv Hus.
     - apply good_of_key; auto.
     - apply good_of_key; auto.
     - apply good_of_key; auto.
@@ -1082,7 +1082,7 @@ Section Roundtrip.
     - (* Optional *)
       simpl in Hser. destruct v.
       1: { enc_scalar. unfold good, len. simpl. repeat split; try reflexivity; left; split; reflexivity. }
-      all: simpl in Ht, Hus; destruct (IH _ pos Hser Ht Hpv Hsm Hus) as (G1 & G2 & G3 & G4);
+      all: simpl in Ht, Hus; destruct (IH _ pos Hser Ht Hpv Hus) as (G1 & G2 & G3 & G4);
         unfold good, len; simpl; repeat split; try exact G3; try exact G4; right;
         (repeat split; [ intros E; fold len in G1, G2; first [rewrite E in G1; apply len_none in G1 | rewrite E in G2; apply len_none in G2]; discriminate
                        | intros E; fold len in G1, G2; first [rewrite E in G1; apply len_bad in G1 | rewrite E in G2; apply len_bad in G2]; contradiction
@@ -1094,7 +1094,7 @@ Section Roundtrip.
       destruct Hmem as (tm & Im & Hm).
       assert (Km : key_type tm = true).
       { rewrite forallb_forall in Hser. rewrite <- union_member_key. apply Hser. exact Im. }
-      destruct (key_enc tm v pos Km Hm Hsm) as (K1 & K2 & K3 & K4 & K5 & K6 & K7). fold e in K1, K2, K3, K4, K5, K6, K7. unfold e in *.
+      destruct (key_enc tm v pos Km Hm) as (K1 & K2 & K3 & K4 & K5 & K6 & K7). fold e in K1, K2, K3, K4, K5, K6, K7. unfold e in *.
       assert (Hpick : (fix pick (ts : list ty) : Prop :=
                          match ts with
                          | [] => False
@@ -1103,7 +1103,7 @@ Section Roundtrip.
       { clear Ht Im IH. induction ts as [|t1 r IHr]; [discriminate|].
         simpl in Hser. apply andb_true_iff in Hser as [Hk1 Hkr]. rewrite union_member_key in Hk1.
         destruct (has_type v t1) eqn:E1.
-        - left. destruct (key_enc t1 v pos Hk1 E1 Hsm) as (_ & _ & L & _). exact L.
+        - left. destruct (key_enc t1 v pos Hk1 E1) as (_ & _ & L & _). exact L.
         - right. apply andb_true_iff in Hus as [Hrej Hr]. split.
           + rewrite K7. apply rejects_fails. exact Hrej.
           + apply IHr; assumption. }
@@ -1113,8 +1113,8 @@ Section Roundtrip.
       + apply json_scalar_ok. exact K1.
       + apply json_scalar_yaml. exact K1.
     - (* List *)
-      simpl in Hser. destruct v as [ | | | | | | | vs | | | | ]; try discriminate. simpl in Ht, Hpv, Hsm, Hus.
-      rewrite enc_list_eq. rewrite forallb_forall in Ht, Hpv, Hsm, Hus.
+      simpl in Hser. destruct v as [ | | | | | | | vs | | | | ]; try discriminate. simpl in Ht, Hpv, Hus.
+      rewrite enc_list_eq. rewrite forallb_forall in Ht, Hpv, Hus.
       assert (G : forall x, In x vs -> good t1 x (enc_gen sigma encf false x)).
       { intros x Ix. apply IH; auto. }
       unfold good, len. simpl. repeat split.
@@ -1125,7 +1125,7 @@ Section Roundtrip.
       + apply forallb_forall. intros p Ip. apply in_map_iff in Ip as (x & <- & Ix). apply (G x Ix).
       + apply forallb_forall. intros p Ip. apply in_map_iff in Ip as (x & <- & Ix). apply (G x Ix).
     - (* Tuple, fixed *)
-      simpl in Hser. destruct v as [ | | | | | | | | vs | | | ]; try discriminate. simpl in Ht, Hpv, Hsm, Hus.
+      simpl in Hser. destruct v as [ | | | | | | | | vs | | | ]; try discriminate. simpl in Ht, Hpv, Hus.
       rewrite enc_tup_eq.
       assert (G : (fix go (ts : list ty) (vs : list value) (ps : list prim) : Prop :=
                      match ts, vs, ps with
@@ -1141,14 +1141,14 @@ Section Roundtrip.
                      end) ts vs (map json_rt (map (enc_gen sigma encf false) vs))
                   /\ forallb json_ok (map (enc_gen sigma encf false) vs) = true
                   /\ forallb yaml_ok (map (enc_gen sigma encf false) vs) = true).
-      { revert vs Ht Hpv Hsm Hus. induction IH as [|t1 r IH1 _ IHr]; intros vs Ht Hpv Hsm Hus.
+      { revert vs Ht Hpv Hus. induction IH as [|t1 r IH1 _ IHr]; intros vs Ht Hpv Hus.
         - destruct vs; [repeat split | discriminate].
-        - destruct vs as [|x vr]; [discriminate|]. simpl in Hser, Hpv, Hsm.
+        - destruct vs as [|x vr]; [discriminate|]. simpl in Hser, Hpv.
           apply andb_true_iff in Hser as [Hs1 Hsr]. apply andb_true_iff in Ht as [Hx Hr].
-          apply andb_true_iff in Hpv as [Hp1 Hpr]. apply andb_true_iff in Hsm as [Hm1 Hmr].
+          apply andb_true_iff in Hpv as [Hp1 Hpr].
           apply andb_true_iff in Hus as [Hu1 Hur].
-          destruct (IH1 x false Hs1 Hx Hp1 Hm1 Hu1) as (A1 & A2 & A3 & A4).
-          destruct (IHr Hsr vr Hr Hpr Hmr Hur) as (B1 & B2 & B3 & B4).
+          destruct (IH1 x false Hs1 Hx Hp1 Hu1) as (A1 & A2 & A3 & A4).
+          destruct (IHr Hsr vr Hr Hpr Hur) as (B1 & B2 & B3 & B4).
           simpl. rewrite A3, B3, A4, B4. repeat split; assumption. }
       destruct G as (G1 & G2 & G3 & G4).
       unfold good, len. simpl. repeat split.
@@ -1157,8 +1157,8 @@ Section Roundtrip.
       + exact G3.
       + exact G4.
     - (* Tuple, variadic *)
-      simpl in Hser. destruct v as [ | | | | | | | | vs | | | ]; try discriminate. simpl in Ht, Hpv, Hsm, Hus.
-      rewrite enc_tup_eq. rewrite forallb_forall in Ht, Hpv, Hsm, Hus.
+      simpl in Hser. destruct v as [ | | | | | | | | vs | | | ]; try discriminate. simpl in Ht, Hpv, Hus.
+      rewrite enc_tup_eq. rewrite forallb_forall in Ht, Hpv, Hus.
       assert (G : forall x, In x vs -> good t1 x (enc_gen sigma encf false x)).
       { intros x Ix. apply IH; auto. }
       unfold good, len. simpl. repeat split.
@@ -1169,41 +1169,41 @@ Section Roundtrip.
       + apply forallb_forall. intros p Ip. apply in_map_iff in Ip as (x & <- & Ix). apply (G x Ix).
       + apply forallb_forall. intros p Ip. apply in_map_iff in Ip as (x & <- & Ix). apply (G x Ix).
     - (* Set *)
-      simpl in Hser. destruct v as [ | | | | | | | | | vs | | ]; try discriminate. simpl in Ht, Hpv, Hsm, Hus.
+      simpl in Hser. destruct v as [ | | | | | | | | | vs | | ]; try discriminate. simpl in Ht, Hpv, Hus.
       apply andb_true_iff in Ht as [Ht Hsorted].
       rewrite enc_set_eq.
       destruct (Permutation_map_inv _ _ (sigma_perm (map (enc_gen sigma encf false) vs))) as (vs' & Es & HP).
-      rewrite Es. rewrite forallb_forall in Ht, Hsm.
-      assert (K : forall x, In x vs' -> key_type t1 = true /\ has_type x t1 = true /\ ints_small x = true).
+      rewrite Es. rewrite forallb_forall in Ht.
+      assert (K : forall x, In x vs' -> key_type t1 = true /\ has_type x t1 = true).
       { intros x Ix. assert (In x vs) by (eapply Permutation_in; [symmetry; exact HP | exact Ix]). auto. }
       assert (Ej : map json_rt (map (enc_gen sigma encf false) vs') = map (enc_gen sigma encf false) vs').
-      { rewrite map_map. apply map_ext_in. intros x Ix. destruct (K x Ix) as (K1 & K2 & K3).
-        destruct (key_enc t1 x false K1 K2 K3) as (_ & _ & _ & _ & J & _). exact J. }
+      { rewrite map_map. apply map_ext_in. intros x Ix. destruct (K x Ix) as (K1 & K2).
+        destruct (key_enc t1 x false K1 K2) as (_ & _ & _ & _ & J & _). exact J. }
       assert (L : len (TSet t1) (VSet vs) (PList (map (enc_gen sigma encf false) vs'))).
       { unfold len. simpl. exists vs, (map (enc_gen sigma encf false) vs'), vs'. repeat split.
         - left. reflexivity.
-        - apply Forall2_map_r. intros x Ix. destruct (K x Ix) as (K1 & K2 & K3).
-          destruct (key_enc t1 x false K1 K2 K3) as (_ & _ & L & _). exact L.
-        - apply forallb_forall. intros x Ix. destruct (K x Ix) as (K1 & K2 & K3).
-          destruct (key_enc t1 x false K1 K2 K3) as (_ & _ & _ & _ & _ & Hh & _). exact Hh.
+        - apply Forall2_map_r. intros x Ix. destruct (K x Ix) as (K1 & K2).
+          destruct (key_enc t1 x false K1 K2) as (_ & _ & L & _). exact L.
+        - apply forallb_forall. intros x Ix. destruct (K x Ix) as (K1 & K2).
+          destruct (key_enc t1 x false K1 K2) as (_ & _ & _ & _ & _ & Hh & _). exact Hh.
         - apply canon_set_perm; [exact Hsorted | symmetry; exact HP]. }
       unfold good. simpl. rewrite Ej. repeat split; try exact L.
-      + apply forallb_forall. intros p Ip. apply in_map_iff in Ip as (x & <- & Ix). destruct (K x Ix) as (K1 & K2 & K3).
-        destruct (key_enc t1 x false K1 K2 K3) as (Js & _). apply json_scalar_ok. exact Js.
-      + apply forallb_forall. intros p Ip. apply in_map_iff in Ip as (x & <- & Ix). destruct (K x Ix) as (K1 & K2 & K3).
-        destruct (key_enc t1 x false K1 K2 K3) as (Js & _). apply json_scalar_yaml. exact Js.
+      + apply forallb_forall. intros p Ip. apply in_map_iff in Ip as (x & <- & Ix). destruct (K x Ix) as (K1 & K2).
+        destruct (key_enc t1 x false K1 K2) as (Js & _). apply json_scalar_ok. exact Js.
+      + apply forallb_forall. intros p Ip. apply in_map_iff in Ip as (x & <- & Ix). destruct (K x Ix) as (K1 & K2).
+        destruct (key_enc t1 x false K1 K2) as (Js & _). apply json_scalar_yaml. exact Js.
     - (* Dict *)
       simpl in Hser. apply andb_true_iff in Hser as [Hkt Hsv].
-      destruct v as [ | | | | | | | | | | od kvs | ]; try discriminate. simpl in Ht, Hpv, Hsm, Hus.
+      destruct v as [ | | | | | | | | | | od kvs | ]; try discriminate. simpl in Ht, Hpv, Hus.
       apply andb_true_iff in Ht as [Ht Hdist]. apply andb_true_iff in Hpv as [Hod Hpv].
       apply negb_true_iff in Hod. subst od.
-      rewrite forallb_forall in Ht, Hpv, Hsm, Hus.
+      rewrite forallb_forall in Ht, Hpv, Hus.
       assert (K : forall kv, In kv kvs ->
-                  has_type (fst kv) tk = true /\ ints_small (fst kv) = true /\
+                  has_type (fst kv) tk = true /\
                   good tv (snd kv) (enc_gen sigma encf false (snd kv))).
-      { intros kv Ikv. specialize (Ht _ Ikv). specialize (Hpv _ Ikv). specialize (Hsm _ Ikv). specialize (Hus _ Ikv).
+      { intros kv Ikv. specialize (Ht _ Ikv). specialize (Hpv _ Ikv). specialize (Hus _ Ikv).
         apply andb_true_iff in Ht as [T1 T2]. apply andb_true_iff in Hpv as [P1 P2].
-        apply andb_true_iff in Hsm as [S1 S2]. apply andb_true_iff in Hus as [U1 U2].
+        apply andb_true_iff in Hus as [U1 U2].
         repeat split; auto; apply IHv; auto. }
       assert (Hkeys : Forall (fun k => has_type k tk = true) (map fst kvs)).
       { apply Forall_forall. intros k Ik. apply in_map_iff in Ik as (kv & <- & Ikv). apply (K kv Ikv). }
@@ -1216,8 +1216,8 @@ Section Roundtrip.
           apply (distinct_map value_eqb prim_eqb _ (fun k => has_type k tk = true)); try assumption.
           intros a b Ha Hb Hab. apply (key_distinct tk a b Hkt Ha Hb Hab).
         - apply forallb_forall. intros p Ip. apply in_map_iff in Ip as (kv & <- & Ikv). unfold enc_kv. simpl.
-          destruct (K kv Ikv) as (K1 & K2 & _).
-          destruct (key_enc tk (fst kv) false Hkt K1 K2) as (Js & _). apply json_scalar_hashable. exact Js. }
+          destruct (K kv Ikv) as (K1 & _).
+          destruct (key_enc tk (fst kv) false Hkt K1) as (Js & _). apply json_scalar_hashable. exact Js. }
       rewrite E1.
       assert (E2 : json_rt (PDict false (map (enc_kv sigma encf) kvs)) =
                    PDict false (map (fun kv => (jkey (enc_gen sigma encf false (fst kv)), json_rt (enc_gen sigma encf false (snd kv)))) kvs)).
@@ -1230,37 +1230,37 @@ Section Roundtrip.
         intros a b Ha Hb Hab. apply (key_distinct tk a b Hkt Ha Hb Hab). }
       assert (Hbuild : dict_build [] kvs = Ok kvs).
       { rewrite dict_build_app; [reflexivity | exact Hd |].
-        apply forallb_forall. intros kv Ikv. destruct (K kv Ikv) as (K1 & K2 & _).
-        destruct (key_enc tk (fst kv) false Hkt K1 K2) as (_ & _ & _ & _ & _ & Hh & _). exact Hh. }
+        apply forallb_forall. intros kv Ikv. destruct (K kv Ikv) as (K1 & _).
+        destruct (key_enc tk (fst kv) false Hkt K1) as (_ & _ & _ & _ & _ & Hh & _). exact Hh. }
       unfold good. rewrite E2. unfold len. simpl. repeat split.
       + exists false, kvs, (map (enc_kv sigma encf) kvs), kvs. repeat split; [|exact Hbuild].
-        apply Forall2_map_r. intros kv Ikv. destruct (K kv Ikv) as (K1 & K2 & K3). unfold enc_kv. simpl. split.
-        * destruct (key_enc tk (fst kv) false Hkt K1 K2) as (_ & _ & L & _). exact L.
+        apply Forall2_map_r. intros kv Ikv. destruct (K kv Ikv) as (K1 & K3). unfold enc_kv. simpl. split.
+        * destruct (key_enc tk (fst kv) false Hkt K1) as (_ & _ & L & _). exact L.
         * apply K3.
       + exists false, kvs, (map (fun kv => (jkey (enc_gen sigma encf false (fst kv)), json_rt (enc_gen sigma encf false (snd kv)))) kvs), kvs.
         repeat split; [|exact Hbuild].
-        apply Forall2_map_r. intros kv Ikv. destruct (K kv Ikv) as (K1 & K2 & K3). simpl. split.
-        * destruct (key_enc tk (fst kv) false Hkt K1 K2) as (_ & _ & _ & L & _). exact L.
+        apply Forall2_map_r. intros kv Ikv. destruct (K kv Ikv) as (K1 & K3). simpl. split.
+        * destruct (key_enc tk (fst kv) false Hkt K1) as (_ & _ & _ & L & _). exact L.
         * apply K3.
       + apply forallb_forall. intros p Ip. apply in_map_iff in Ip as (kv & <- & Ikv). unfold enc_kv. simpl.
-        destruct (K kv Ikv) as (K1 & K2 & K3).
-        destruct (key_enc tk (fst kv) false Hkt K1 K2) as (_ & Jk & _). unfold e in Jk. rewrite Jk. simpl. apply K3.
+        destruct (K kv Ikv) as (K1 & K3).
+        destruct (key_enc tk (fst kv) false Hkt K1) as (_ & Jk & _). unfold e in Jk. rewrite Jk. simpl. apply K3.
       + apply forallb_forall. intros p Ip. apply in_map_iff in Ip as (kv & <- & Ikv). unfold enc_kv. simpl.
-        destruct (K kv Ikv) as (K1 & K2 & K3).
-        destruct (key_enc tk (fst kv) false Hkt K1 K2) as (Js & _). unfold e in Js.
+        destruct (K kv Ikv) as (K1 & K3).
+        destruct (key_enc tk (fst kv) false Hkt K1) as (Js & _). unfold e in Js.
         rewrite (json_scalar_hashable _ Js), (json_scalar_yaml _ Js). simpl. apply K3.
     - (* dataclass *)
       simpl in Hser. apply andb_true_iff in Hser as [Hser Hnokey]. apply andb_true_iff in Hser as [Hfs Hnd].
-      destruct v as [ | | | | | | | | | | | k' c' vfs ]; try discriminate. simpl in Ht, Hpv, Hsm, Hus.
+      destruct v as [ | | | | | | | | | | | k' c' vfs ]; try discriminate. simpl in Ht, Hpv, Hus.
       apply andb_true_iff in Ht as [Ht Hgo]. apply andb_true_iff in Ht as [Hk Hc].
       apply String.eqb_eq in Hc. subst c'.
       assert (k' = k) by (destruct k, k'; simpl in Hk; try discriminate; reflexivity). subst k'.
       assert (A : aligned (fun t1 x => good t1 x (enc_gen sigma encf true x) /\ good t1 x (enc_gen sigma encf false x)) fs vfs).
-      { clear Hnd Hnokey. revert vfs Hgo Hpv Hsm Hus. induction IH as [|f r IH1 _ IHr]; intros vfs Hgo Hpv Hsm Hus.
+      { clear Hnd Hnokey. revert vfs Hgo Hpv Hus. induction IH as [|f r IH1 _ IHr]; intros vfs Hgo Hpv Hus.
         - destruct vfs; [exact I | discriminate].
         - destruct f as [[[n m] d] t1]. destruct vfs as [|[[n' m'] x] vr]; [discriminate|].
-          simpl in Hfs, Hpv, Hsm, IH1. apply andb_true_iff in Hfs as [Hf1 Hfr]. apply andb_true_iff in Hf1 as [Hm Hs1].
-          apply andb_true_iff in Hpv as [Hp1 Hpr]. apply andb_true_iff in Hsm as [Hm1 Hmr].
+          simpl in Hfs, Hpv, IH1. apply andb_true_iff in Hfs as [Hf1 Hfr]. apply andb_true_iff in Hf1 as [Hm Hs1].
+          apply andb_true_iff in Hpv as [Hp1 Hpr].
           apply andb_true_iff in Hus as [Hu1 Hur].
           apply andb_true_iff in Hgo as [Hgo Hr]. apply andb_true_iff in Hgo as [Hgo Hx]. apply andb_true_iff in Hgo as [Hn Hmm].
           apply String.eqb_eq in Hn. apply fmeta_eqb_eq in Hm. apply fmeta_eqb_eq in Hmm. subst.
@@ -1352,15 +1352,15 @@ Section Main.
   Hypothesis sigma_perm : forall l, Permutation (sigma l) l.
 
   Definition roundtrip_domain (t : ty) (v : value) : Prop :=
-    ser_type DC_TYPE_KEY t = true /\ has_type v t = true /\ plain_value v = true /\ ints_small v = true.
+    ser_type DC_TYPE_KEY t = true /\ has_type v t = true /\ plain_value v = true.
 
   Theorem roundtrip_all : forall t v tr,
     roundtrip_domain t v ->
     union_safe (decode_gen decf) (encode_gen sigma encf) t v = true ->
     bind (run_transport tr (to_dict_gen sigma encf v)) (decode_gen decf t) = Ok v.
   Proof.
-    intros t v tr (Hs & Ht & Hp & Hi) Hu.
-    destruct (enc_good sigma encf decf sigma_perm t v true Hs Ht Hp Hi Hu) as (G1 & G2 & G3 & G4).
+    intros t v tr (Hs & Ht & Hp) Hu.
+    destruct (enc_good sigma encf decf sigma_perm t v true Hs Ht Hp Hu) as (G1 & G2 & G3 & G4).
     change (to_dict_gen sigma encf v) with (enc_gen sigma encf true v).
     destruct tr; simpl.
     - apply lenient_decodes. exact G1.
@@ -1481,12 +1481,12 @@ Definition no_decf (k : Z) (p : prim) : res value := Err (Raise "NoHook").
 
 (* "a value that already is an instance of one member of a Union comes back unchanged" *)
 Definition union_full_statement : Prop :=
-  forall ts v, forallb union_member ts = true -> has_type v (TUnion ts) = true -> ints_small v = true ->
+  forall ts v, forallb union_member ts = true -> has_type v (TUnion ts) = true ->
   decode_gen no_decf (TUnion ts) (encode_gen sigma_id no_encf v) = Ok v.
 
 Theorem union_full_refuted_int_str : ~ union_full_statement.
 Proof.
-  intros H. specialize (H [TInt; TStr] (VStr "123") eq_refl eq_refl eq_refl).
+  intros H. specialize (H [TInt; TStr] (VStr "123") eq_refl eq_refl).
   vm_compute in H. discriminate.
 Qed.
 Theorem union_int_str_witness :
@@ -1512,14 +1512,13 @@ Proof.
   specialize (H D). vm_compute in H. discriminate.
 Qed.
 
-(* ints beyond the float range: _decode_int evaluates float(v) *)
-Theorem roundtrip_huge_int_refuted :
-  exists t v, ser_type DC_TYPE_KEY t = true /\ has_type v t = true /\ plain_value v = true /\
-              union_safe (decode_gen no_decf) (encode_gen sigma_id no_encf) t v = true /\
-              bind (run_transport TrDict (to_dict_gen sigma_id no_encf v)) (decode_gen no_decf t) = Err (Raise "OverflowError").
-Proof.
-  exists (wit_dc TInt), (wit_val (VInt (10 ^ 400))). vm_compute. repeat split; reflexivity.
-Qed.
+(* ints beyond the float range come back unchanged (they used to end in OverflowError: _decode_int evaluated float(v)) *)
+Theorem roundtrip_huge_int :
+  roundtrip_domain (wit_dc TInt) (wit_val (VInt (10 ^ 400))) /\
+  union_safe (decode_gen no_decf) (encode_gen sigma_id no_encf) (wit_dc TInt) (wit_val (VInt (10 ^ 400))) = true /\
+  bind (run_transport TrJson (to_dict_gen sigma_id no_encf (wit_val (VInt (10 ^ 400))))) (decode_gen no_decf (wit_dc TInt))
+  = Ok (wit_val (VInt (10 ^ 400))).
+Proof. unfold roundtrip_domain. vm_compute. repeat split; reflexivity. Qed.
 
 (* C13: primitives only — false for an OrderedDict value and for a dict keyed by tuples *)
 Theorem primitive_ordered_dict_refuted :
